@@ -442,8 +442,37 @@ def _restore_locals(tree):
     return notes
 
 
+def _fold_lock_try(tree):
+    """`L.acquire(); try: BODY finally: L.release()` is `with L: BODY` written out (for a threading.Lock the two are
+    the same: acquire outside the try, release on every exit)."""
+    n = 0
+    for node in ast.walk(tree):
+        for fld in ("body", "orelse", "finalbody"):
+            lst = getattr(node, fld, None)
+            if not isinstance(lst, list):
+                continue
+            i = 0
+            while i + 1 < len(lst):
+                a, t = lst[i], lst[i + 1]
+                ok = (isinstance(a, ast.Expr) and isinstance(a.value, ast.Call) and isinstance(a.value.func, ast.Attribute) and a.value.func.attr == "acquire"
+                      and not a.value.args and not a.value.keywords
+                      and isinstance(t, ast.Try) and not t.handlers and not t.orelse and len(t.finalbody) == 1)
+                if ok:
+                    f = t.finalbody[0]
+                    ok = (isinstance(f, ast.Expr) and isinstance(f.value, ast.Call) and isinstance(f.value.func, ast.Attribute) and f.value.func.attr == "release"
+                          and not f.value.args and ast.unparse(f.value.func.value) == ast.unparse(a.value.func.value))
+                if ok:
+                    w = ast.With(items=[ast.withitem(context_expr=a.value.func.value, optional_vars=None)], body=t.body, type_comment=None)
+                    ast.copy_location(w, a)
+                    lst[i:i + 2] = [w]
+                    n += 1
+                i += 1
+    return n
+
+
 def normalize_tree(tree):
     out = {"renamed": _restore_names(tree) + _restore_attrs(tree)}
+    out["lock_try_folded"] = _fold_lock_try(tree)
     out.update({"walrus_hoisted": _hoist_walrus(tree), "helpers_expanded": _inline_helpers(tree)})
     out["locals_restored"] = _restore_locals(tree)
     out["walrus_hoisted"] += _hoist_walrus(tree)
@@ -1073,11 +1102,78 @@ def run_rules(m, r):
 
     # ------------------------------------------------------------------ R20.7
     # +1: unconditional tail of _add_neighbor, after the BESS add succeeded (the except branch returns)
+    # counted along every path through the function: `route_count += k` adds k, a new NeighborEntry(route_count=k)
+    # stored for the next hop starts at k (0 when the argument is absent); a path that completes adds exactly 1,
+    # a path that gives up inside an exception handler adds nothing
     incs = [n for n in ast.walk(add_nb) if isinstance(n, ast.AugAssign) and isinstance(n.target, ast.Attribute) and n.target.attr == "route_count"]
-    r.check(len(incs) == 1 and isinstance(incs[0].op, ast.Add) and ast.unparse(incs[0].value) == "1" and incs[0] in add_nb.body and add_nb.body[-1] is incs[0],
-            "R20.7", fn(add_nb), "every route that reached BESS is counted once", m.pos(incs[0]) if incs else m.pos(add_nb), "route_count += 1 as the last statement", "the route count is not incremented exactly once per installed route")
-    if incs:
-        r.check(ast.unparse(incs[0].target) == "self._neighbor_cache[route_entry.next_hop_ip].route_count", "R20.7", fn(add_nb), "the count belongs to the route's next hop", m.pos(incs[0]), ast.unparse(incs[0].target), f"increments {ast.unparse(incs[0].target)}")
+    UNKNOWN = object()
+
+    def rc_stmt(st, in_exc):
+        if isinstance(st, ast.If):
+            return rc_paths(st.body, in_exc) + rc_paths(st.orelse, in_exc)
+        if isinstance(st, ast.With):
+            return rc_paths(st.body, in_exc)
+        if isinstance(st, ast.Try):
+            out = rc_paths(st.body + st.orelse, in_exc)
+            body_counts = any(isinstance(x, ast.AugAssign) and isinstance(x.target, ast.Attribute) and x.target.attr == "route_count" for b in st.body for x in ast.walk(b))
+            for h in st.handlers:
+                for c, e in rc_paths(h.body, True):
+                    out.append((UNKNOWN if body_counts else c, e))
+            if st.finalbody:
+                out2 = []
+                for c, e in out:
+                    for c2, e2 in rc_paths(st.finalbody, in_exc):
+                        cc = UNKNOWN if (c is UNKNOWN or c2 is UNKNOWN) else c + c2
+                        out2.append((cc, e if e is not None else e2))
+                out = out2
+            return out
+        if isinstance(st, ast.Return):
+            return [(0, "except-return" if in_exc else "return")]
+        if isinstance(st, ast.Raise):
+            return [(0, "raise")]
+        if isinstance(st, ast.AugAssign) and isinstance(st.target, ast.Attribute) and st.target.attr == "route_count":
+            if isinstance(st.op, ast.Add) and isinstance(st.value, ast.Constant) and isinstance(st.value.value, int):
+                return [(st.value.value, None)]
+            return [(UNKNOWN, None)]
+        if isinstance(st, ast.Assign) and isinstance(st.value, ast.Call) and ast.unparse(st.value.func) == "NeighborEntry" and any("_neighbor_cache[" in ast.unparse(t) for t in st.targets):
+            k = 0
+            for kw in st.value.keywords:
+                if kw.arg == "route_count":
+                    k = kw.value.value if isinstance(kw.value, ast.Constant) and isinstance(kw.value.value, int) else UNKNOWN
+            if len(st.value.args) >= 3:
+                a = st.value.args[2]
+                k = a.value if isinstance(a, ast.Constant) and isinstance(a.value, int) else UNKNOWN
+            return [(k, None)]
+        if isinstance(st, (ast.For, ast.While)):
+            if any(isinstance(x, ast.Attribute) and x.attr == "route_count" and isinstance(getattr(x, "ctx", None), ast.Store) for x in ast.walk(st)):
+                return [(UNKNOWN, None)]
+            return [(0, None)]
+        if any(isinstance(x, ast.Attribute) and x.attr == "route_count" and isinstance(getattr(x, "ctx", None), ast.Store) for x in ast.walk(st)):
+            return [(UNKNOWN, None)]
+        return [(0, None)]
+
+    def rc_paths(stmts, in_exc):
+        paths = [(0, None)]
+        for st in stmts:
+            nxt = []
+            for c, e in paths:
+                if e is not None:
+                    nxt.append((c, e))
+                    continue
+                for c2, e2 in rc_stmt(st, in_exc):
+                    nxt.append((UNKNOWN if (c is UNKNOWN or c2 is UNKNOWN) else c + c2, e2))
+            paths = nxt
+        return paths
+
+    rc = rc_paths(add_nb.body, False)
+    done = [c for c, e in rc if e in (None, "return")]
+    gave_up = [c for c, e in rc if e == "except-return"]
+    ok_counts = bool(done) and all(c is not UNKNOWN and c == 1 for c in done) and all(c is not UNKNOWN and c == 0 for c in gave_up)
+    shown = ", ".join("?" if c is UNKNOWN else str(c) for c in done)
+    r.check(ok_counts, "R20.7", fn(add_nb), "every route that reached BESS is counted once", m.pos(incs[0]) if incs else m.pos(add_nb), f"+1 on each of the {len(done)} completing paths",
+            f"the route count is not incremented exactly once per installed route (completing paths add {shown})")
+    for inc in incs:
+        r.check(ast.unparse(inc.target) == "self._neighbor_cache[route_entry.next_hop_ip].route_count", "R20.7", fn(add_nb), "the count belongs to the route's next hop", m.pos(inc), ast.unparse(inc.target), f"increments {ast.unparse(inc.target)}")
     # the BESS add failure path leaves before any bookkeeping
     for t in [n for n in add_nb.body if isinstance(n, ast.Try)]:
         if any(isinstance(x, ast.Call) and isinstance(x.func, ast.Attribute) and x.func.attr == "add_route_to_module" for x in ast.walk(t)):
